@@ -67,4 +67,17 @@ theorem copyToR_spec (s : St) (x : Src) (off n : Nat) (hs : s.ok = true) (hrb : 
   rw [hR.2] at this
   rw [hR.2, this]; rfl
 
+/-- a store through rp inside the block -/
+theorem wrR_spec (s : St) (off : Nat) (l : List Nat) (hs : s.ok = true) (hrb : BlkWF s.r.blk) (h : off + l.length ≤ s.r.blk.alloc) :
+    (s.wrR off l).ok = true ∧ (s.wrR off l).u = s.u ∧ (s.wrR off l).v = s.v ∧ (s.wrR off l).t = s.t ∧
+    (s.wrR off l).r.prec = s.r.prec ∧ (s.wrR off l).r.size = s.r.size ∧ (s.wrR off l).r.exp = s.r.exp ∧
+    (s.wrR off l).r.blk.alloc = s.r.blk.alloc ∧ BlkWF (s.wrR off l).r.blk ∧
+    (s.wrR off l).r.blk.limbs = s.r.blk.limbs.take off ++ l ++ s.r.blk.limbs.drop (off + l.length) := by
+  have hW := Blk.write_ok s.r.blk off l hrb h
+  simp only [St.wrR, hs, hW.1, hW.2.1, hW.2.2.1, hW.2.2.2, Bool.and_self, true_and, and_self]
+
+/-- a store through rp that leaves the block -/
+theorem wrR_bad (s : St) (off : Nat) (l : List Nat) (h : s.r.blk.alloc < off + l.length) : (s.wrR off l).ok = false := by
+  simp only [St.wrR, Blk.write_bad _ _ _ h, Bool.and_false]
+
 end Mpir.AllocSafe7
